@@ -53,6 +53,20 @@ def make_datasets(case, sets=None):
     return out
 
 
+def scalar_args(case):
+    '''alpha and ndf as the numeric objects the case asks for (same numbers)'''
+    return {'alpha': layouts.scalar(case['alpha'], case.get('alpha_type')),
+            'ndf': layouts.scalar(case['ndf'], case.get('ndf_type'))}
+
+
+def plain_number(x):
+    '''a numeric scalar of any type as None / int / float (for the observation)'''
+    if x is None:
+        return None
+    val = float(np.asarray(x))
+    return int(val) if val == int(val) else val
+
+
 def expected_masks(case):
     '''per compared dataset: bins masked on either side (flat list of bool), or None'''
     msk = case.get('masks') or []
@@ -70,7 +84,7 @@ def observe(test, res, shape):
     oracles = np.asarray(res.oracles())
     tpv = res.test_pvalue()
     obs = {'thr': bits(test.threshold), 'verdict': bool(res), 'datasets': [],
-           'alpha': bits(test.alpha), 'ndf': test.ndf}
+           'alpha': bits(np.asarray(test.alpha, dtype=float)), 'ndf': plain_number(test.ndf)}
     if len(res.tstud) != ndat or oracles.shape != (ndat,) + shape \
             or not isinstance(tpv, (list, tuple, np.ndarray)) or len(tpv) != ndat \
             or len(res.pvalue) != ndat:
@@ -100,7 +114,7 @@ def run_impl(case, sets=None):
     try:
         with np.errstate(all='ignore'):
             dsets = make_datasets(case, sets)
-            test = TestStudent(*dsets, name='student', alpha=case['alpha'], ndf=case['ndf'])
+            test = TestStudent(*dsets, name='student', **scalar_args(case))
             res = test.evaluate()
             return observe(test, res, shape)
     except Exception as exc:  # noqa
@@ -121,7 +135,7 @@ def round_trips(ctx, case, obs):
     route = 'construction'
     try:
         with np.errstate(all='ignore'):
-            test = TestStudent(*make_datasets(case), name='student', alpha=case['alpha'], ndf=case['ndf'])
+            test = TestStudent(*make_datasets(case), name='student', **scalar_args(case))
             res = test.evaluate()
             routes = [('copy.copy of the test, then evaluate', lambda: (lambda t: (t, t.evaluate()))(copy.copy(test))),
                       ('copy.deepcopy of the test, then evaluate',
@@ -160,6 +174,47 @@ def round_trips(ctx, case, obs):
                            dict(case, route=route), key='state-round-trip-raises')
 
 
+def inplace_history(ctx, case, obs):
+    '''evaluate; edit an input array IN PLACE (error scaled, one error set, zero errors filled in,
+    values shifted, a write through the parent array of which the error is a slice); evaluate the
+    same test again and a brand-new test on the same dataset objects: both must read exactly as fresh
+    datasets built from copies of the current numbers'''
+    from valjean.eponine.dataset import Dataset
+    from valjean.gavroche.stat_tests.student import TestStudent
+    if not case['shape'] or case.get('masks') or case.get('dtypes'):
+        return
+    shape = tuple(case['shape'])
+    tag = f' :: {json.dumps(case)[:600]}'
+    steps = []
+    try:
+        with np.errstate(all='ignore'):
+            dsets, parent, owner = layouts.writable_datasets(Dataset, case, unbits, ctx.rng)
+            new_test = lambda: TestStudent(*dsets, name='student', **scalar_args(case))
+            test = new_test()
+            if observe(test, test.evaluate(), shape) != obs:
+                ctx.oracle_failure('the same numbers on writable arrays give another result' + tag, case,
+                                   key='inplace-first')
+                return
+            for _ in range(ctx.rng.choice([1, 2])):
+                steps.append(layouts.edit_in_place(dsets, parent, owner, ctx.rng))
+                ncase = dict(case, datasets=layouts.current_numbers(dsets, bits))
+                fresh = run_impl(ncase)
+                for what, tst in (('the same test evaluated again', test), ('a new test on the same datasets',
+                                                                            new_test())):
+                    got = observe(tst, tst.evaluate(), shape)
+                    if got != fresh:
+                        ctx.oracle_failure(
+                            f'after the in-place edits {steps}, {what} does not read as fresh datasets with the '
+                            f'current numbers (t {[unbits(b) for b in got["datasets"][0]["t"]][:6]} instead of '
+                            f'{[unbits(b) for b in fresh.get("datasets", [{"t": []}])[0]["t"]][:6]}, verdict '
+                            f'{got["verdict"]} / {fresh.get("verdict")})' + tag,
+                            dict(ncase, before=case['datasets'], edits=steps), key='inplace-edit')
+                        return
+    except Exception as exc:  # noqa
+        ctx.oracle_failure(f'in-place history {steps} raises {type(exc).__name__}' + tag, case,
+                           key='inplace-raises')
+
+
 def history(ctx, case, obs):
     '''the user's TestStudent object is evaluated, wrapped in Bonferroni / Holm-Bonferroni tests that
     are evaluated (in any order, possibly several times), evaluated again; after every step the
@@ -175,7 +230,7 @@ def history(ctx, case, obs):
     hcase = dict(case, history=[list(x) for x in zip(ops, walphas)])
     try:
         with np.errstate(all='ignore'):
-            test = TestStudent(*make_datasets(case), name='student', alpha=case['alpha'], ndf=case['ndf'])
+            test = TestStudent(*make_datasets(case), name='student', **scalar_args(case))
             first = test.evaluate()
             start = observe(test, first, shape)
             if start != obs:
@@ -596,14 +651,14 @@ VAL_SPECIALS = [INF, -INF, NAN, 0.0, -0.0, 1.5, -1.5]
 
 def special_pair_cases():
     '''every combination of (inf, nan, 0, finite) errors and (+-inf, nan, 0, finite) values across
-    the two sides: 16 x 49 = 784 bins, exhaustively, each under four memory layouts'''
+    the two sides: 16 x 49 = 784 bins, exhaustively, each under two memory layouts'''
     grid = [(v1, e1, v2, e2) for e1 in ERR_SPECIALS for e2 in ERR_SPECIALS
             for v1 in VAL_SPECIALS for v2 in VAL_SPECIALS]
     out = []
     assert len(grid) == 784
     for k, ndf in enumerate([None, 10, 10 ** 6, 1, 2, 1000, 10001]):
         part = grid[k * 112:(k + 1) * 112]
-        for lay in ('C', 'F', 'P', 'N'):          # all four arrays in the same layout
+        for lay in ('C', ('F', 'P', 'N')[k % 3]):   # all four arrays in the same layout
             case = mk([4, 28], 0.05, ndf, ([b[0] for b in part], [b[1] for b in part]),
                       ([b[2] for b in part], [b[3] for b in part]))
             case['layouts'] = [[lay, lay], [lay, lay]]
@@ -691,6 +746,18 @@ def strip_masked(case, obs):
     return ncase, nobs
 
 
+def with_scalar_types(rng, case, force=False):
+    '''ndf / alpha handed over as NumPy scalars, 0-d arrays, Python float / bool ... (same numbers)'''
+    typ = layouts.pick_ndf_type(rng, case['ndf'])
+    if force and case['ndf'] is not None and typ == 'int':
+        typ = 'int64'
+    atyp = 'float' if rng.random() < 0.7 else rng.choice(layouts.ALPHA_TYPES[1:])
+    out = dict(case, ndf_type=typ, alpha_type=atyp)
+    if atyp == 'float32':
+        out['alpha'] = float(np.float32(case['alpha']))
+    return out
+
+
 def mk(shape, alpha, ndf, *sets):
     return {'shape': shape, 'alpha': alpha, 'ndf': ndf,
             'datasets': [[[bits(x) for x in v], [bits(x) for x in e]] for v, e in sets]}
@@ -761,7 +828,7 @@ def run(ctx):
     ctx.rule = ('corpus (docstring examples, 0/0, NaN/inf patterns, signed zeros) + boundary cases (|t| == critical value exactly and its float neighbours, alpha == p-value of a bin) + random comparisons: scalar to 4-d, '
                 '1..3 compared datasets, differences of 0.5..3 sigma, exact ties 12%, zero errors 10%, NaN/inf 5% '
                 'each in a third of the cases, magnitudes 1e-321..1e160, alpha in {0.001..0.5} or random, ndf in '
-                '{None,1,2,10,1000,10001,1e6} or random in 1e4..1e7, with bins 1e-7 and 1e-4 (relative) inside/outside the reference critical value for every ndf class; every combination of inf/NaN/0/finite errors and values across the two sides; STATE ROUND TRIPS on a quarter of the cases and on all small-ndf cases with |t| between the normal and the Student critical value (copy / deepcopy / pickle of the test then evaluate, of the result then read, Env.to_file/from_file of an environment holding the result: all must read as the direct evaluation); HISTORIES on a third of the cases (the same TestStudent object evaluated, wrapped in Bonferroni/Holm tests that are evaluated in any order, re-evaluated; earlier results re-read); 12% integer-valued data with int64/int32/uint/Python-int dtypes (all-int or mixed with float datasets); 12% datasets masked through Dataset.mask() (none/some/all bins, reference and/or compared); arrays handed over C-/Fortran-ordered, axis-permuted, strided, negatively strided, read-only or broadcast; each case also run swapped, rescaled by 2^k, with grown differences and with '
+                '{None,1,2,10,1000,10001,1e6} or random in 1e4..1e7, with bins 1e-7 and 1e-4 (relative) inside/outside the reference critical value for every ndf class; every combination of inf/NaN/0/finite errors and values across the two sides; ndf and alpha handed over as NumPy scalars (int64/int32/int16/uint8/intp/float64/float32), 0-d arrays, Python float/bool in half of the random cases and once for every deterministic window case; IN-PLACE EDITS of an input array between two evaluations on 30% of the cases (same test and a new test must read as fresh datasets with the current numbers); STATE ROUND TRIPS on a quarter of the cases and on all small-ndf cases with |t| between the normal and the Student critical value (copy / deepcopy / pickle of the test then evaluate, of the result then read, Env.to_file/from_file of an environment holding the result: all must read as the direct evaluation); HISTORIES on a third of the cases (the same TestStudent object evaluated, wrapped in Bonferroni/Holm tests that are evaluated in any order, re-evaluated; earlier results re-read); 12% integer-valued data with int64/int32/uint/Python-int dtypes (all-int or mixed with float datasets); 12% datasets masked through Dataset.mask() (none/some/all bins, reference and/or compared); arrays handed over C-/Fortran-ordered, axis-permuted, strided, negatively strided, read-only or broadcast; each case also run swapped, rescaled by 2^k, with grown differences and with '
                 'halved errors; non-trivial = passing and failing bins in one case (or a scalar case)')
     cases = corpus()
     ctx.count('corpus', len(cases))
@@ -775,8 +842,12 @@ def run(ctx):
     between = between_cases()
     ctx.count('between_normal_and_student_cases', len(between))
     cases = between + cases                      # first in the list: always taken through the round trips
+    # every deterministic case once more with ndf (and sometimes alpha) given as a NumPy number
+    cases = cases + [with_scalar_types(ctx.rng, c, force=True) for c in between + window_cases()]
+    ctx.count('numpy_scalar_argument_corpus_cases', len(between) + len(window_cases()))
     ncorp = len(cases)
-    nrand = 650 if quick else 13000
+    nrand = 520 if quick else 12000
+    ncorp0 = len(cases)                          # deterministic cases keep their plain arguments
     cases += boundary_cases(ctx.rng, 60 if quick else 1000)
     ctx.count('boundary', len(cases) - ncorp)
     for _ in range(nrand):
@@ -789,7 +860,12 @@ def run(ctx):
             cases.append(gen_case(ctx.rng, quick))
     done = []
     t_start = time.time()
+    cases = [c if 'ndf_type' in c or k < ncorp0 else with_scalar_types(ctx.rng, c) for k, c in enumerate(cases)]
     for k, case in enumerate(cases):
+        if case.get('ndf_type', 'int') != 'int':
+            ctx.count('ndf_type_' + case['ndf_type'])
+        if case.get('alpha_type', 'float') != 'float':
+            ctx.count('alpha_type_' + case['alpha_type'])
         obs = run_impl(case)
         good = oracle(ctx, case, obs)
         masked = bool(case.get('masks'))
@@ -798,6 +874,9 @@ def run(ctx):
         if good and (k < 60 or ctx.rng.random() < 0.35):
             history(ctx, case, obs)
             ctx.count('histories')
+        if good and not masked and ctx.rng.random() < 0.3:
+            inplace_history(ctx, case, obs)
+            ctx.count('inplace_edit_histories')
         if good and (k < 60 or ctx.rng.random() < 0.25):
             round_trips(ctx, case, obs)
             ctx.count('state_round_trips')
@@ -845,10 +924,10 @@ def run(ctx):
     ctx.extra['model_cases_compared'] = len(done)
     grid_cases = [c for c, _ in done if c['shape'] == [4, 28] and len(c['datasets'][0][0]) == 112]
     ctx.extra['exhaustive_special_value_grid'] = {
-        'complete': len(grid_cases) == 28 and not ctx.corr_broken,
+        'complete': len(grid_cases) == 14 and not ctx.corr_broken,
         'bins': 784,
         'bound': 'one bin (v1, e1, v2, e2): errors in {inf, NaN, 0, 0.5}^2 x values in {+inf, -inf, NaN, +0, -0, 1.5, '
-                 '-1.5}^2, every combination, each under 4 memory layouts, compared with the model in Coq and the oracle'}
+                 '-1.5}^2, every combination, each under 2 memory layouts, compared with the model in Coq and the oracle'}
     ctx.assumptions = ['scipy.special.ndtri/stdtrit/ndtr/stdtr are the ground truth for critical values and p-values',
                        'Python float arithmetic is the ground truth for the statistic',
                        'the model is fed the implementation\'s own threshold and p-values (scipy is external)']
